@@ -73,6 +73,9 @@ def do_replay(prop, path):
     elif rp.get("kind") == "flat_query":
         from vf.e1.query_jobs import replay_flat_query
         viol, txt = replay_flat_query(rp)
+    elif rp.get("kind") == "flatten_driver":
+        from vf.e1.flatten_jobs import replay_flatten_driver
+        viol, txt = replay_flatten_driver(rp)
     elif rp.get("kind") == "hpins":
         from vf.e1.hier_jobs import replay_hpins
         viol, txt = replay_hpins(rp)
